@@ -466,16 +466,21 @@ func discover(repo *load.Repo) (*model, error) {
 			m.sjConsumers = s
 		}
 	}
+	// invalid: the bool the worker LOADS from the job it received; done: the other bool the loop sets to true.
+	// Any further bool field is an addition: S1 treats unknown fields as loop-owned (fail closed) and reports
+	// whoever else touches them, which is more useful than giving up on every rule.
 	bools := fields(sj, func(v *types.Var) bool { return types.Identical(v.Type(), types.Typ[types.Bool]) })
 	readBools := map[*types.Var]bool{}
 	for _, fn := range ssax.WithAnon(m.fnWorker) {
 		ssax.Instrs(fn, func(in ssa.Instruction) {
-			if v, ok := in.(ssa.Value); ok {
-				if _, f, ok := ssax.FieldAddrOf(v); ok {
-					for _, b := range bools {
-						if b == f {
-							readBools[f] = true
-						}
+			u, ok := in.(*ssa.UnOp)
+			if !ok || u.Op != token.MUL {
+				return
+			}
+			if _, f, ok := ssax.FieldAddrOf(u.X); ok {
+				for _, b := range bools {
+					if b == f {
+						readBools[f] = true
 					}
 				}
 			}
@@ -488,10 +493,41 @@ func discover(repo *load.Repo) (*model, error) {
 	} else {
 		m.sjInvalid = pick(bools, "invalid")
 	}
-	for _, b := range bools {
-		if b != m.sjInvalid && len(bools) == 2 {
-			m.sjDone = b
+	setTrue := map[*types.Var]bool{}
+	for _, fn := range ssax.WithAnon(m.fnLoop) {
+		ssax.Instrs(fn, func(in ssa.Instruction) {
+			st, ok := in.(*ssa.Store)
+			if !ok || !ssax.IsConstBool(st.Val, true) {
+				return
+			}
+			if _, f, ok := ssax.FieldAddrOf(st.Addr); ok {
+				for _, b := range bools {
+					if b == f && b != m.sjInvalid {
+						setTrue[f] = true
+					}
+				}
+			}
+		})
+	}
+	switch {
+	case len(setTrue) == 1:
+		for f := range setTrue {
+			m.sjDone = f
 		}
+	case len(bools) == 2:
+		for _, b := range bools {
+			if b != m.sjInvalid {
+				m.sjDone = b
+			}
+		}
+	default:
+		var rest []*types.Var
+		for _, b := range bools {
+			if b != m.sjInvalid {
+				rest = append(rest, b)
+			}
+		}
+		m.sjDone = pick(rest, "done")
 	}
 	if m.sjCtx == nil || m.sjRun == nil || m.sjRemaining == nil || m.sjErr == nil || m.sjDeps == nil || m.sjConsumers == nil || m.sjInvalid == nil || m.sjDone == nil {
 		return nil, fmt.Errorf("ScheduledJob field roles (ctx, run, deps, remaining, consumers, done, err, invalid) not uniquely identified")
